@@ -15,6 +15,8 @@ import (
 
 	"pgregory.net/rapid"
 
+	"github.com/thanos-io/thanos/pkg/store/storepb/prompb"
+
 	"github.com/thanos-io/thanos/pkg/receive"
 	"github.com/thanos-io/thanos/verifx/kit"
 )
@@ -51,54 +53,67 @@ func c20Check(c c20Case) (string, bool, []string) {
 		return "building the enlarged ring failed: " + err.Error(), false, nil
 	}
 	moved, orderChanged := 0, 0
+	one := func(tenant string, ts *prompb.TimeSeries) string {
+		rb, err := replicasOf(before, tenant, ts, c.rf)
+		if err != nil {
+			return fmt.Sprintf("series %s before: %v", renderSeries(ts), err)
+		}
+		ra, err := replicasOf(after, tenant, ts, c.rf)
+		if err != nil {
+			return fmt.Sprintf("series %s after: %v", renderSeries(ts), err)
+		}
+		sb, sa := map[receive.Endpoint]bool{}, map[receive.Endpoint]bool{}
+		for _, e := range rb {
+			sb[e] = true
+		}
+		for _, e := range ra {
+			sa[e] = true
+		}
+		gained, lost := 0, 0
+		for e := range sa {
+			if !sb[e] {
+				gained++
+				if e != c.added {
+					return fmt.Sprintf("tenant %q series %s moved onto pre-existing node %s: before %s after %s", tenant, renderSeries(ts), e.Address, renderReplicas(rb), renderReplicas(ra))
+				}
+			}
+		}
+		for e := range sb {
+			if !sa[e] {
+				lost++
+			}
+		}
+		if lost > 1 {
+			return fmt.Sprintf("tenant %q series %s lost %d replicas: before %s after %s", tenant, renderSeries(ts), lost, renderReplicas(rb), renderReplicas(ra))
+		}
+		if !sa[c.added] && (gained != 0 || lost != 0) {
+			return fmt.Sprintf("tenant %q series %s changed without the new node: before %s after %s", tenant, renderSeries(ts), renderReplicas(rb), renderReplicas(ra))
+		}
+		if sa[c.added] {
+			moved++
+		} else {
+			for n := range rb {
+				if rb[n] != ra[n] {
+					orderChanged++
+					break
+				}
+			}
+		}
+		return ""
+	}
 	for _, tenant := range c.tenants {
 		for i := 0; i < c.nser; i++ {
-			ts := mkSeries(c.salt, i)
-			rb, err := replicasOf(before, tenant, ts, c.rf)
-			if err != nil {
-				return fmt.Sprintf("series %s before: %v", renderSeries(ts), err), false, nil
+			if msg := one(tenant, mkSeries(c.salt, i)); msg != "" {
+				return msg, false, nil
 			}
-			ra, err := replicasOf(after, tenant, ts, c.rf)
-			if err != nil {
-				return fmt.Sprintf("series %s after: %v", renderSeries(ts), err), false, nil
-			}
-			sb, sa := map[receive.Endpoint]bool{}, map[receive.Endpoint]bool{}
-			for _, e := range rb {
-				sb[e] = true
-			}
-			for _, e := range ra {
-				sa[e] = true
-			}
-			gained, lost := 0, 0
-			for e := range sa {
-				if !sb[e] {
-					gained++
-					if e != c.added {
-						return fmt.Sprintf("tenant %q series %s moved onto pre-existing node %s: before %s after %s", tenant, renderSeries(ts), e.Address, renderReplicas(rb), renderReplicas(ra)), false, nil
-					}
-				}
-			}
-			for e := range sb {
-				if !sa[e] {
-					lost++
-				}
-			}
-			if lost > 1 {
-				return fmt.Sprintf("tenant %q series %s lost %d replicas: before %s after %s", tenant, renderSeries(ts), lost, renderReplicas(rb), renderReplicas(ra)), false, nil
-			}
-			if !sa[c.added] && (gained != 0 || lost != 0) {
-				return fmt.Sprintf("tenant %q series %s changed without the new node: before %s after %s", tenant, renderSeries(ts), renderReplicas(rb), renderReplicas(ra)), false, nil
-			}
-			if sa[c.added] {
-				moved++
-			} else {
-				for n := range rb {
-					if rb[n] != ra[n] {
-						orderChanged++
-						break
-					}
-				}
-			}
+		}
+	}
+	// Boundary inputs: series whose hash is among the lowest and the highest of a large pool, so that
+	// the first and the last sections of the ring (where the successor walk wraps around) are
+	// exercised in every case and not only with probability ~1/(1000*nodes) per series.
+	for _, ts := range ringEdgeSeries() {
+		if msg := one(ringEdgeTenant, ts); msg != "" {
+			return msg + " (ring-edge series)", false, nil
 		}
 	}
 	var classes []string
